@@ -123,8 +123,18 @@ func (fl *flow) path(v ssa.Value, d int) string {
 	case *ssa.Slice:
 		return fl.path(x.X, d+1) + "[:]"
 	case *ssa.Extract:
+		if call, ok := x.Tuple.(*ssa.Call); ok {
+			if p, ok := fl.throughWrapper(call, x.Index, d); ok {
+				return p
+			}
+		}
 		return fmt.Sprintf("%s#%d", fl.path(x.Tuple, d+1), x.Index)
 	case *ssa.Call:
+		if _, isTuple := x.Type().(*types.Tuple); !isTuple {
+			if p, ok := fl.throughWrapper(x, 0, d); ok {
+				return p
+			}
+		}
 		return fl.call(x.Common(), d)
 	case *ssa.Phi:
 		// a phi that (transitively) depends on itself is a loop variable: opaque, identified by name
@@ -182,6 +192,38 @@ func (fl *flow) path(v ssa.Value, d int) string {
 		return fl.path(x.X, d+1)
 	}
 	return fmt.Sprintf("%T:%s", v, v.Name())
+}
+
+// throughWrapper: result #idx of a call of a function literal called in place, or of a transparent helper (newfn.go), is
+// the value that wrapper returns — when every return gives the same value (nil alternatives, the error exits, ignored).
+func (fl *flow) throughWrapper(call *ssa.Call, idx int, d int) (string, bool) {
+	var callee *ssa.Function
+	switch v := call.Common().Value.(type) {
+	case *ssa.MakeClosure:
+		callee, _ = v.Fn.(*ssa.Function)
+	case *ssa.Function:
+		if !call.Common().IsInvoke() && fl.p.transparentSite(v) != nil {
+			callee = v
+		}
+	}
+	if callee == nil || len(callee.Blocks) == 0 || d > 30 {
+		return "", false
+	}
+	set := map[string]bool{}
+	for _, b := range callee.Blocks {
+		if ret, ok := b.Instrs[len(b.Instrs)-1].(*ssa.Return); ok && idx < len(ret.Results) {
+			if p := fl.path(ret.Results[idx], d+2); p != "nil" {
+				set[p] = true
+			}
+		}
+	}
+	if len(set) != 1 {
+		return "", false
+	}
+	for p := range set {
+		return p, true
+	}
+	return "", false
 }
 
 // sel renders base.field; the address-of marker of the base is dropped and embedded (promoted)
